@@ -25,6 +25,22 @@ func ConvertLabelQuery(terms []*v1alpha1.LabelTerm) ([]resource.LabelQueryOption
 			opts = append(opts, resource.NotMatches)
 		}
 
+		if len(term.Value) == 0 {
+			// a term which needs a value, but doesn't carry one: keep it value-less,
+			// so that it is evaluated exactly the way the state does it when accessed directly
+			if op, ok := valueOp(term.Op); ok {
+				labelOpts = append(labelOpts, func(q *resource.LabelQuery) {
+					q.Terms = append(q.Terms, resource.LabelTerm{
+						Key:    term.Key,
+						Op:     op,
+						Invert: term.Invert,
+					})
+				})
+
+				continue
+			}
+		}
+
 		switch term.Op {
 		case v1alpha1.LabelTerm_EQUAL:
 			labelOpts = append(labelOpts, resource.LabelEqual(term.Key, term.Value[0], opts...))
@@ -48,6 +64,24 @@ func ConvertLabelQuery(terms []*v1alpha1.LabelTerm) ([]resource.LabelQueryOption
 	}
 
 	return labelOpts, nil
+}
+
+// valueOp maps protobuf operations which take a single value to the label term operations.
+func valueOp(op v1alpha1.LabelTerm_Operation) (resource.LabelOp, bool) {
+	switch op { //nolint:exhaustive
+	case v1alpha1.LabelTerm_EQUAL:
+		return resource.LabelOpEqual, true
+	case v1alpha1.LabelTerm_LT:
+		return resource.LabelOpLT, true
+	case v1alpha1.LabelTerm_LTE:
+		return resource.LabelOpLTE, true
+	case v1alpha1.LabelTerm_LT_NUMERIC:
+		return resource.LabelOpLTNumeric, true
+	case v1alpha1.LabelTerm_LTE_NUMERIC:
+		return resource.LabelOpLTENumeric, true
+	default:
+		return 0, false
+	}
 }
 
 // ConvertIDQuery converts protobuf representation of IDQuery to state representation.
